@@ -110,7 +110,7 @@ def pm1_event_classes(r, R):
                "reaches the tag parser exactly once" if n == 1 else "reaches the tag parser %d times" % n, site, "PM1|%s|open" % v)
         elif cls == "chardata":
             ok, why = _sets_text(R, v)
-            ob(r, "PM1.event-class", ("C01", "C03", "C11"), "Event::%s" % v, ok, why, site, "PM1|%s|chardata" % v)
+            ob(r, "PM1.event-class", ("C01", "C03", "C11", "C08"), "Event::%s" % v, ok, why, site, "PM1|%s|chardata" % v)
         elif cls == "ignored":
             calls, writes, ret = ev.calls(v), ev.writes(v), ev.can_return(v)
             ok = not calls and not writes and not ret
@@ -546,7 +546,7 @@ def pm8_start_protocol(r, R):
     a = strip(term_of(b, sn.node["args"][0]))
     ok = b.dominates(sn.bb, tp_s.bb) and sn.bb != tp_s.bb and a[0] == "call" and a[1].endswith("Element::get_child") and \
         _is_root(R, strip(a[2][0])) and _is_event_name(R, a[2][1], "Start")
-    ob(r, "PM8b.snapshot-before-parse", ("C03", "C01"), "Start arm", ok, "the child counts are snapshotted from current.get_child(tag name) before the element is parsed" if ok else
+    ob(r, "PM8b.snapshot-before-parse", ("C03", "C01", "C06"), "Start arm", ok, "the child counts are snapshotted from current.get_child(tag name) before the element is parsed" if ok else
        "snapshot call is not get_child(current, this tag's name) taken before the tag parser (arg: %s)" % term_s(a)[:80], sn, "PM8b|snapshot")
     # demotion in Start
     ds = R.ds_calls["Start"]
